@@ -105,10 +105,14 @@ def in_claim_domain(hist):
 def model(hist):
     """returns (S, T, I, E, soft) - soft = tables that a DROP found removable (see ASSUMPTIONS)"""
     N, E, SO, TO, soft = set(), set(), set(), set(), set()
+    ever = set()  # tables something was ever read from or wired to (a RENAME hands the history of x on to y): DROP never removes these
     for st in hist:
         if st[0] == "rw":
             _, R, w = st
             N |= set(R)
+            ever |= set(R)
+            if R and w:
+                ever.add(w)
             if w:
                 N.add(w)
             if R and not w:
@@ -119,7 +123,7 @@ def model(hist):
                 E |= {(r, w) for r in R}
         elif st[0] == "drop":
             t = st[1]
-            if t in N and not any(t in e for e in E) and t not in SO:
+            if t in N and t not in ever:
                 N.discard(t)
                 TO.discard(t)
                 soft.add(t)
@@ -131,6 +135,7 @@ def model(hist):
                 SO = {sub(t) for t in SO}
                 TO = {sub(t) for t in TO}
                 N = {sub(t) for t in N} | {y}
+                ever = {sub(t) for t in ever}
                 if not any(y in e for e in E) and y not in SO:
                     N.discard(y)
                     TO.discard(y)
